@@ -33,14 +33,16 @@ pub fn run_source_after(prior: &(String, bool), src: &str, drive: Drive, rec: bo
     xs.set_recording_enabled(rec);
     xs.set_insn_limit(Some(insn_limit)).unwrap();
     // a prior text starting with "STEP " is compiled and single-stepped (to its end or to its failure)
+    let mut capped = false;
     let _ = guarded(|| if let Some(p) = prior.0.strip_prefix("STEP ") {
         xs.compile(p)?;
         let mut k = 0;
         while xs.is_running() && k < 20_000 { xs.next()?; k += 1; }
+        capped = xs.is_running();       // stopped by the step cap, not by an error or the end of the code
         Ok(())
     } else if prior.1 { xs.eval(&prior.0) } else { xs.compile(&prior.0).and_then(|_| xs.run()) });
     let _ = xs.read_stdout();
-    if xs.is_running() {
+    if capped {
         // the earlier source has not come to an end (a stepped loop that hit the step cap): the interpreter is not idle,
         // which is outside the property - the program is driven from a fresh interpreter instead
         return run_source(src, drive, rec, insn_limit);
